@@ -22,7 +22,7 @@ PROPS = {
     },
     'C13': {
         'level': 'proof',
-        'verus': ['c13-frame'],
+        'verus': ['c13-frame', 'c13-step'],
         'kani': ['io'],
         'explanation': 'Verus proves, for every buffer and every header value, that Frame arithmetic and LengthDelimited/NoopFramer '
                        '::extract never overflow, never index out of bounds and never report a frame that does not fit the buffered '
